@@ -257,6 +257,7 @@ def run_case(ctx):
     # ---- reduced density matrices and entropies ------------------------------------------------------
     s = sts[int(rng.integers(0, nstates))][0]
     t = tensor_vec(s)
+    coeff_before = complex(s.coeff)
     dims = gm.dims
     if s.is_mps:
         vec, vdims = t.reshape(-1), list(dims)
@@ -329,7 +330,7 @@ def run_case(ctx):
                     ctx.check(abs(eb[c - 1] - ref) <= 1e-8, "entropy-bond|mismatch", got=eb[c - 1], want=ref, cut=c)
     # measuring must not change the state
     ctx.count("oracle")
-    ctx.close(tensor_vec(s) * s.coeff, t * s.coeff, 1e-12, "measurement|state-changed",
-              scale=max(float(np.linalg.norm(t) * abs(s.coeff)), 1e-300))
+    ctx.close(tensor_vec(s) * s.coeff, t * coeff_before, 1e-12, "measurement|state-changed",
+              scale=max(float(np.linalg.norm(t) * abs(coeff_before)), 1e-300))
     if nontrivial:
         ctx.nontrivial({"model": gm.describe(), "states": [tr for _, tr in sts], "ops": [d for _, _, d in ops]})
